@@ -87,7 +87,13 @@ impl TryFrom<&[u8]> for Request {
         // SAFETY: This unwrap is safe since 3..7 gives 4 bytes which is a safe conversion to an
         // array of len 4. Technically the first of these bytes is `p2` the second parameter,
         // but in the base U2F spec this will always be 0. So this length is safe.
-        let data_len = u32::from_be_bytes(value[3..data_start].try_into().unwrap()) as usize;
+        let data_len = u32::from_be_bytes(
+            value
+                .get(3..data_start)
+                .ok_or(ResponseStatusWords::WrongLength)?
+                .try_into()
+                .unwrap(),
+        ) as usize;
         // The declared length must be covered by what was received.
         let payload = data_start
             .checked_add(data_len)
